@@ -19,8 +19,8 @@ func init() {
 		[]string{"unicode.IsLetter / IsDigit / utf8.DecodeRuneInString behave as documented", "go/ssa lowering is faithful to the source"},
 		"C19.a", "C19.b", "C19.c", "C19.d", "C19.e", "C16.a", "C16.c", "C17.f", "C19.f", "C16.d")
 
-	register(&Rule{ID: "C19.a", Doc: "width-fact typestate over token construction sites", Floor: 40, Run: c19a})
-	register(&Rule{ID: "C19.b", Doc: "readChar line/column reset; end-of-input test shared by readChar and peekChar", Floor: 8, Run: c19b})
+	register(&Rule{ID: "C19.a", Doc: "width-fact typestate over token construction sites", Floor: 66, Run: c19a})
+	register(&Rule{ID: "C19.b", Doc: "readChar line/column reset; end-of-input test shared by readChar and peekChar", Floor: 15, Run: c19b})
 	register(&Rule{ID: "C19.c", Doc: "whitespace and comments skipped before dispatch; whitespace and comment opener sets", Floor: 4, Run: c19c})
 	register(&Rule{ID: "C19.e", Doc: "character classes of the lexer: isLetter = Unicode letters and '_', isHexDigit = [0-9a-fA-F] (evaluated from their definitions over U+0000..U+2FFFF)", Floor: 2, Run: c19e})
 	register(&Rule{ID: "C19.d", Doc: "keyword table equals the documented keyword list", Floor: 30, Run: c19d})
